@@ -141,8 +141,9 @@ func runCOMMIT(c *Ctx) {
 		found := map[string]hit{}
 		visited := map[string]bool{}
 		nLeaves := 0
-		var walk func(fn *ssa.Function, inh ctxKinds, depth int)
-		walk = func(fn *ssa.Function, inh ctxKinds, depth int) {
+		// bind: what the function-typed parameters of fn were given by the call that led here
+		var walk func(fn *ssa.Function, inh ctxKinds, depth int, bind map[*ssa.Parameter]ssa.Value)
+		walk = func(fn *ssa.Function, inh ctxKinds, depth int, bind map[*ssa.Parameter]ssa.Value) {
 			key := ir.FuncName(fn) + "|" + keyOf(inh)
 			if visited[key] || depth > 8 {
 				return
@@ -191,11 +192,56 @@ func runCOMMIT(c *Ctx) {
 					}
 				}
 				descended := false
-				if ext := c.Facts.External(ci); !strings.HasPrefix(ext, "callback:") {
+				bindFor := func(g *ssa.Function) map[*ssa.Parameter]ssa.Value {
+					nb := map[*ssa.Parameter]ssa.Value{}
+					for k, v := range bind {
+						nb[k] = v // closures met further down refer to parameters of the functions above
+					}
+					args := ci.Common().Args
+					if len(args) == len(g.Params) {
+						for i, p := range g.Params {
+							if _, isFn := p.Type().Underlying().(*types.Signature); isFn {
+								a := args[i]
+								if pp, isP := ir.ResolveCell(a).(*ssa.Parameter); isP && bind[pp] != nil {
+									a = bind[pp]
+								}
+								nb[p] = a
+							}
+						}
+					}
+					return nb
+				}
+				ext := c.Facts.External(ci)
+				if !strings.HasPrefix(ext, "callback:") {
 					for _, g := range c.Facts.Callees(ci) {
 						if g.Blocks != nil && isOwn(P, g) && c.Facts.MayFail[g] {
-							walk(g, before, depth+1)
+							walk(g, before, depth+1, bindFor(g))
 							descended = true
+						}
+					}
+				} else if prm, isP := ir.Origin(ci.Common().Value).(*ssa.Parameter); isP && bind[prm] != nil {
+					// a call through a function-typed parameter: what was passed in decides what it is
+					switch x := ir.Origin(bind[prm]).(type) {
+					case *ssa.MakeClosure:
+						if g, ok := x.Fn.(*ssa.Function); ok && g.Blocks != nil {
+							if c.Facts.MayFail[g] {
+								walk(g, before, depth+1, bind) // its free variables are parameters of the functions already bound
+							}
+							descended = true // a repository closure: looked into (or cannot fail)
+						}
+					case *ssa.Function:
+						if x.Blocks != nil && isOwn(P, x) {
+							if c.Facts.MayFail[x] {
+								walk(x, before, depth+1, map[*ssa.Parameter]ssa.Value{})
+							}
+							descended = true
+						}
+					default:
+						// a configured callback handed on as an argument: named by the Mast field it came from
+						if ld, ok := ir.ResolveCell(bind[prm]).(*ssa.UnOp); ok && ld.Op == token.MUL {
+							if fa, ok := ld.X.(*ssa.FieldAddr); ok && ir.IsPtrToNamed(fa.X.Type(), "Mast") {
+								name = "callback " + ir.FieldName(fa.X.Type(), fa.Field)
+							}
 						}
 					}
 				}
@@ -220,7 +266,7 @@ func runCOMMIT(c *Ctx) {
 				}
 			}
 		}
-		walk(entry, ctxKinds{map[string]bool{}, map[string]bool{}}, 0)
+		walk(entry, ctxKinds{map[string]bool{}, map[string]bool{}}, 0, map[*ssa.Parameter]ssa.Value{})
 		var keys []string
 		for k := range found {
 			keys = append(keys, k)
